@@ -110,6 +110,10 @@ fn call(oracle: &str, v: &Value) -> Value {
         "lsp::diagnostic_range" => c05::diagnostic_range(v),
         #[cfg(feature = "lsp")]
         "lsp::server_ranges" => server::server_ranges(v),
+        #[cfg(feature = "lsp")]
+        "incan::fmt_error_location" => c05::fmt_error_location(v),
+        #[cfg(feature = "lsp")]
+        "lsp::published_ranges" => server::published_ranges(v),
         "syntax::get_line_info" | "syntax::format_error_location" => {
             use incan_syntax::diagnostics::{format_error, CompileError};
             use incan_syntax::ast::Span;
@@ -184,6 +188,86 @@ mod server {
     }
     fn range_ok(source: &str, r: &Range) -> bool {
         (r.start.line, r.start.character) <= (r.end.line, r.end.character) && pos_ok(source, r.start) && pos_ok(source, r.end)
+    }
+
+    pub const ERR_DOCS: &[&str] = &[
+        "def main() -> None:\n    s: int = \"日本語日本語日本語\"\n",
+        "def main() -> None:\n    t: str = \"é😀é😀é😀\" + 1\n    u: int = \"x\"\n",
+        "def f(a: int) -> int:\r\n    return \"ééééé\"\r\n\r\ndef main() -> None:\r\n    pass\r\n",
+        "def main() -> None:\n    x = \"ééé\" + undefined_name\n",
+        "def main() -> None:\n    y: int = 1 +\n",
+        "def main() -> None:\n    z = \"😀😀😀\" !\n",
+    ];
+
+    /// C19 bounded stand-in for analyze_document (what the server PUBLISHES): the real server is run over an in-memory
+    /// pipe (initialize, initialized, didOpen) and every range of the published diagnostics must lie inside the document.
+    pub fn published_ranges(v: &Value) -> Value {
+        use tokio::io::{AsyncReadExt, AsyncWriteExt};
+        let di = v["doc"].as_u64().unwrap() as usize % ERR_DOCS.len();
+        let source = ERR_DOCS[di].to_string();
+        let src2 = source.clone();
+        let got = guarded(move || {
+            let rt = tokio::runtime::Builder::new_current_thread().enable_all().build().unwrap();
+            rt.block_on(async {
+                let (service, socket) = LspService::new(IncanLanguageServer::new);
+                let (client_io, server_io) = tokio::io::duplex(1 << 20);
+                let (sr, sw) = tokio::io::split(server_io);
+                let server = tower_lsp::Server::new(sr, sw, socket).serve(service);
+                let (mut r, mut w) = tokio::io::split(client_io);
+                async fn send<W: tokio::io::AsyncWrite + Unpin>(w: &mut W, body: serde_json::Value) {
+                    let t = body.to_string();
+                    let _ = w.write_all(format!("Content-Length: {}\r\n\r\n{}", t.len(), t).as_bytes()).await;
+                    let _ = w.flush().await;
+                }
+                async fn recv<R: tokio::io::AsyncRead + Unpin>(r: &mut R) -> serde_json::Value {
+                    let mut header = Vec::new();
+                    while !header.ends_with(b"\r\n\r\n") { let mut b = [0u8; 1]; if r.read_exact(&mut b).await.is_err() { return json!(null); } header.push(b[0]); }
+                    let header = String::from_utf8_lossy(&header).to_string();
+                    let len: usize = header.lines().find_map(|l| l.strip_prefix("Content-Length: ")).and_then(|x| x.trim().parse().ok()).unwrap_or(0);
+                    let mut body = vec![0u8; len];
+                    if r.read_exact(&mut body).await.is_err() { return json!(null); }
+                    serde_json::from_slice(&body).unwrap_or(json!(null))
+                }
+                let uri = "file:///verif/main.incn";
+                let talk = async {
+                    send(&mut w, json!({"jsonrpc": "2.0", "id": 1, "method": "initialize", "params": {"capabilities": {}}})).await;
+                    loop { let m = recv(&mut r).await; if m.is_null() { return None; } if m["id"] == json!(1) { break; } }
+                    send(&mut w, json!({"jsonrpc": "2.0", "method": "initialized", "params": {}})).await;
+                    send(&mut w, json!({"jsonrpc": "2.0", "method": "textDocument/didOpen", "params": {"textDocument": {"uri": uri, "languageId": "incan", "version": 1, "text": src2}}})).await;
+                    loop {
+                        let body = recv(&mut r).await;
+                        if body.is_null() { return None; }
+                        if body["method"] == "textDocument/publishDiagnostics" && body["params"]["uri"] == uri {
+                            let mut rs = Vec::new();
+                            for d in body["params"]["diagnostics"].as_array().cloned().unwrap_or_default() {
+                                let mut all = vec![d["range"].clone()];
+                                for ri in d["relatedInformation"].as_array().cloned().unwrap_or_default() { all.push(ri["location"]["range"].clone()); }
+                                for rg in all {
+                                    let p = |x: &serde_json::Value| Position::new(x["line"].as_u64().unwrap_or(0) as u32, x["character"].as_u64().unwrap_or(0) as u32);
+                                    rs.push(Range::new(p(&rg["start"]), p(&rg["end"])));
+                                }
+                            }
+                            return Some(rs);
+                        }
+                    }
+                };
+                tokio::select! {
+                    _ = server => None,
+                    _ = tokio::time::sleep(std::time::Duration::from_secs(10)) => None,
+                    d = talk => d,
+                }
+            })
+        });
+        let echo = json!({"doc": di, "source": source});
+        match &got {
+            Ok(Some(rs)) => {
+                let bad: Vec<_> = rs.iter().filter(|r| !range_ok(&source, r)).map(|r| json!([[r.start.line, r.start.character], [r.end.line, r.end.character]])).collect();
+                verdict(bad.is_empty() && !rs.is_empty(), json!({"published_ranges": rs.len(), "outside_document_or_reversed": bad}),
+                        json!("at least one diagnostic; every published range: start <= end, both ends positions of the document"), &echo, "ranges of published diagnostics lie inside the document")
+            }
+            Ok(None) => verdict(false, json!("no publishDiagnostics received within 10 s"), json!("diagnostics for an ill-formed document"), &echo, "the server must publish diagnostics"),
+            Err(m) => verdict(false, json!({"panicked": m}), json!("no panic"), &echo, "the server must not panic"),
+        }
     }
 
     pub fn server_ranges(v: &Value) -> Value {
@@ -272,7 +356,10 @@ mod c05 {
         let float = op == "/" || lf || rf;
         if compound && float != lf { return verdict(true, json!(null), json!(null), v, "compound form would change the target's kind: rejected by the checker (C07)"); }
         let r = if rf { "y" } else { "b" };
+        let neg = v["neg"].as_bool().unwrap_or(false);      // plain form with a negated left operand: `-a // b` is `(-a) // b`
+        if neg && form != "plain" { return verdict(true, json!(null), json!(null), v, "negated left operand: plain form only"); }
         let (lsrc, lname): (String, String) = match form {
+            "plain" if neg => (if lf { "-x" } else { "-a" }.to_string(), if lf { "-x" } else { "-a" }.to_string()),
             "plain" => (if lf { "x" } else { "a" }.to_string(), if lf { "x" } else { "a" }.to_string()),
             "local" => (if lf { "x2" } else { "a2" }.to_string(), if lf { "x2" } else { "a2" }.to_string()),
             "field" => (if lf { "acc.total" } else { "acc.n" }.to_string(), if lf { "acc.total" } else { "acc.n" }.to_string()),
@@ -457,10 +544,60 @@ mod c05 {
         }
     }
 
+    /// C19 bounded stand-in for the formatter's error path (format_source -> format_error -> get_line_info): the location
+    /// printed for a lexer error agrees with counting newlines and characters in the text that was given.
+    pub fn fmt_error_location(v: &Value) -> Value {
+        let prefixes = ["", "\u{feff}", "# é\n", "\u{feff}# 😀\n", "\r\n"];
+        let pre = prefixes[v["prefix"].as_u64().unwrap() as usize % prefixes.len()];
+        let lead = ["", "x = ", "    "][v["lead"].as_u64().unwrap() as usize % 3];
+        let src = format!("{}y = 1\n{}!\n", pre, lead);
+        let at = src.find('!').unwrap();
+        let before = &src[..at];
+        let line = 1 + before.matches('\n').count();
+        let col = before.chars().count() - before.rfind('\n').map(|i| before[..i + 1].chars().count()).unwrap_or(0) + 1;
+        let got = guarded(|| incan::format_source(&src).map_err(|e| e.to_string()));
+        let echo = { let mut a = v.clone(); a["source"] = json!(src); a };
+        match &got {
+            Ok(Err(msg)) => {
+                // first `<input>:L:C`
+                let loc = msg.split("<input>:").nth(1).map(|r| r.split(|c: char| !(c.is_ascii_digit() || c == ':')).next().unwrap_or("").to_string()).unwrap_or_default();
+                let parts: Vec<usize> = loc.split(':').filter_map(|x| x.parse().ok()).collect();
+                // a leading BOM is itself an unexpected character for the lexer: then the first error may be reported at 1:1
+                let bom = src.starts_with('\u{feff}');
+                let ok = parts.len() >= 2 && ((parts[0] == line && parts[1] == col) || (bom && parts[0] == 1 && parts[1] == 1));
+                verdict(ok, json!({"reported": loc}), json!({"line": line, "col": col, "or_the_BOM_itself_at": if bom { "1:1" } else { "-" }}), &echo, "formatter error location agrees with counting newlines and characters")
+            }
+            Ok(Ok(_)) => verdict(false, json!("formatted without error"), json!("a syntax error at the `!`"), &echo, "the stray `!` must be reported"),
+            Err(m) => verdict(false, json!({"panicked": m}), json!("an error message"), &echo, "the formatter must not panic"),
+        }
+    }
+
     pub fn emit_slice(v: &Value) -> Value {
         // extra index forms: element assignment `xs[i] = 5` (list_get_mut) and dict read `d[k]` (dict_get)
         if let Some(kind) = v["index_kind"].as_str() {
             let idx = bound_src(v["start"].as_str().unwrap_or("var"), "st").unwrap_or("st".to_string());
+            if kind == "nested" || kind == "dict_compound" {
+                // `grid[r][c]`: BOTH levels go through list_get; `d[k] -= 1`: the old value is read through dict_get (KeyError for a missing key)
+                let stmt = if kind == "nested" { "    g = grid[r][c]\n" } else { "    counts[k] -= 1\n" };
+                let src = format!("def f(grid: List[List[int]], r: int, c: int, k: str) -> None:\n    mut counts: Dict[str, int] = {{\"a\": 1}}\n{}\ndef main() -> None:\n    pass\n", stmt);
+                let got = guarded(|| {
+                    let tokens = incan::frontend::lexer::lex(&src).map_err(|e| format!("lex: {:?}", e.first().map(|x| x.message.clone())))?;
+                    let prog = incan::frontend::parser::parse(&tokens).map_err(|e| format!("parse: {:?}", e.first().map(|x| x.message.clone())))?;
+                    incan::IrCodegen::new().try_generate(&prog).map_err(|e| format!("codegen: {}", e))
+                });
+                let echo = { let mut a = v.clone(); a["source"] = json!(src); a };
+                return match &got {
+                    Ok(Ok(code)) => {
+                        let flat: String = code.split_whitespace().collect::<Vec<_>>().join(" ").replace(" :: ", "::");
+                        let (n_get, n_dict) = (flat.matches("incan_stdlib::collections::list_get(").count(), flat.matches("incan_stdlib::collections::dict_get(").count());
+                        let ok = if kind == "nested" { n_get == 2 } else { n_dict >= 1 };
+                        verdict(ok, json!({"list_get_calls": n_get, "dict_get_calls": n_dict}), json!(if kind == "nested" { "two list_get calls (outer and inner index)" } else { "the old value is read with dict_get" }), &echo,
+                                "every index read goes through the runtime helper that implements Python's semantics and errors")
+                    }
+                    Ok(Err(m)) => verdict(false, json!({"front_end_error": m}), json!("a program"), &echo, "an index form must compile"),
+                    Err(m) => verdict(false, json!({"panicked": m}), json!("a program"), &echo, "front end must not panic"),
+                };
+            }
             let (stmt, helper, want0, want1): (String, &str, &str, String) = match kind {
                 "assign" => (format!("    xs[{}] = 5\n", idx), "incan_stdlib::collections::list_get_mut", "mutxs", norm(&idx)),
                 _ => ("    r = d[k]\n".to_string(), "incan_stdlib::collections::dict_get", "d", "k".to_string()),
@@ -627,12 +764,20 @@ mod c07 {
         let rf = rf && form == "var";
         if (op == "/" || op == "//" || op == "%") && matches!(form, "zero") { return super::verdict(true, json!(null), json!(null), v, "literal zero divisor: skipped"); }
         let float = match op { "/" => true, "**" => !(!lf && !rf && matches!(lit, Some(n) if n >= 0)), _ => lf || rf };
-        let (lk, rk, ak) = (if lf { "float" } else { "int" }, if rf { "float" } else { "int" }, if ann_float { "float" } else { "int" });
+        // annotation spelling: the registry's aliases are case-insensitive (`Int`, `FLOAT` are int / float)
+        let spell = v["spell"].as_u64().unwrap_or(0);
+        let ak_s = match (ann_float, spell) { (false, 0) => "int", (false, 1) => "Int", (false, _) => "INT", (true, 0) => "float", (true, 1) => "Float", (true, _) => "FLOAT" };
+        let (lk, rk, ak) = (if lf { "float" } else { "int" }, if rf { "float" } else { "int" }, ak_s);
         // `wrap`: the whole right-hand side is parenthesised — must not change its type
         let wrapped = v["wrap"].as_bool().unwrap_or(false);
         let (po, pc) = if wrapped { ("(", ")") } else { ("", "") };
         let src = match v["position"].as_str().unwrap_or("let") {
             "return" => format!("const N: int = 2\n\ndef f(a: {}, b: {}) -> {}:\n    return {}a {} {}{}\n\ndef main() -> None:\n    pass\n", lk, rk, ak, po, op, rhs, pc),
+            "const" => {
+                // const initializer over literals and another const: `const X: T = 7 <op> <2 | N | -2>`
+                if lf || rf || wrapped || !(form == "lit" || form == "const" || form == "neg") { return super::verdict(true, json!(null), json!(null), v, "const position: literal / const operands only, no parentheses (const initializers are restricted, phase 1)"); }
+                format!("const N: int = 2\nconst X: {} = {}7 {} {}{}\n\ndef main() -> None:\n    pass\n", ak, po, op, rhs, pc)
+            }
             "arg" => format!("const N: int = 2\n\ndef g(v: {}) -> None:\n    pass\n\ndef f(a: {}, b: {}) -> None:\n    g({}a {} {}{})\n\ndef main() -> None:\n    pass\n", ak, lk, rk, po, op, rhs, pc),
             _ => format!("const N: int = 2\n\ndef f(a: {}, b: {}) -> None:\n    y: {} = {}a {} {}{}\n\ndef main() -> None:\n    pass\n", lk, rk, ak, po, op, rhs, pc),
         };
@@ -643,7 +788,8 @@ mod c07 {
         });
         // accepted iff the annotation is the table's kind; int -> float widening of an int result is the only tolerated extra
         let must_accept = ann_float == float;
-        let must_reject = !ann_float && float;
+        // accepted iff the annotation is the table's kind: an int value under a float annotation would be an i64 at run time
+        let must_reject = ann_float != float;
         let ok = match &got { Ok(Ok(acc)) => (!must_accept || *acc) && (!must_reject || !*acc), _ => false };
         let mut r = super::verdict(ok, match &got { Ok(Ok(a)) => json!({"accepted": a}), Ok(Err(m)) => json!({"front_end_error": m}), Err(m) => json!({"panicked": m}) },
                 json!({"table_type": if float { "float" } else { "int" }, "must_accept": must_accept, "must_reject": must_reject}),
@@ -808,17 +954,19 @@ fn search(oracle: &str, seed: u64, budget: u64, skip: &[String]) -> Value {
                 else { json!({"tree": t, "ann": anns[r.below(2) as usize]}) }
             }
             "incan::static_type" => {
-                // exhaustive: 7 operators x 2 x 2 operand kinds x 2 annotations x 7 right-operand forms x 3 binding positions x bare/parenthesised = 2352 programs
+                // exhaustive: 7 operators x 2 x 2 operand kinds x 2 annotations x 7 right-operand forms x 4 binding positions x bare/parenthesised x 3 annotation spellings = 9408 programs (inapplicable ones skipped)
                 let forms = ["var", "const", "lit", "zero", "neg", "paren", "negneg"];
-                let pos = ["let", "return", "arg"];
-                let k = n % 2352;
-                json!({"op": k % 7, "lfloat": (k / 7) % 2 == 0, "rfloat": (k / 14) % 2 == 0, "ann_float": (k / 28) % 2 == 0, "form": forms[((k / 56) % 7) as usize], "position": pos[((k / 392) % 3) as usize], "wrap": (k / 1176) % 2 == 1})
+                let pos = ["let", "return", "arg", "const"];
+                let k = n % 9408;
+                json!({"op": k % 7, "lfloat": (k / 7) % 2 == 0, "rfloat": (k / 14) % 2 == 0, "ann_float": (k / 28) % 2 == 0, "form": forms[((k / 56) % 7) as usize], "position": pos[((k / 392) % 4) as usize], "wrap": (k / 1568) % 2 == 1, "spell": (k / 3136) % 3})
             }
             "incan::emit_promotion" => {
                 // exhaustive: 4 operators x 4 left forms x 11 right forms x plain/compound x flat/shadowing block = 704 programs (inapplicable combinations are skipped)
                 let k = n % 704;
                 json!({"op": k % 4, "l": (k / 4) % 4, "r": (k / 16) % 11, "compound": (k / 176) % 2 == 1, "shadow": (k / 352) % 2 == 1})
             }
+            "lsp::published_ranges" => json!({"doc": n % 6}),
+            "incan::fmt_error_location" => { let k = n % 15; json!({"prefix": k % 5, "lead": k / 5}) }
             "lsp::server_ranges" => {
                 // exhaustive: 6 fixed documents x every character boundary as the cursor
                 #[cfg(feature = "lsp")]
@@ -850,18 +998,20 @@ fn search(oracle: &str, seed: u64, budget: u64, skip: &[String]) -> Value {
                 else { let q = k - 30; json!({"arity": 3, "a": q / 25, "b": (q / 5) % 5, "c": q % 5}) }
             }
             "incan::emit_division" => {
-                // exhaustive: 3 operators x 2 x 2 operand kinds x 5 forms (plain, compound on local / field / list element, const initializer) = 60 programs
-                let forms = ["plain", "local", "field", "index", "const"];
-                let k = n % 60;
-                let f = forms[((k / 12) % 5) as usize];
-                json!({"op": k % 3, "lfloat": (k / 3) % 2 == 0, "rfloat": (k / 6) % 2 == 0, "form": f})
+                // exhaustive: 3 operators x 2 x 2 operand kinds x 6 forms (plain, plain with a negated left operand, compound on local / field / list element, const initializer) = 72 programs
+                let forms = ["plain", "local", "field", "index", "const", "plain"];
+                let k = n % 72;
+                let fi = ((k / 12) % 6) as usize;
+                json!({"op": k % 3, "lfloat": (k / 3) % 2 == 0, "rfloat": (k / 6) % 2 == 0, "form": forms[fi], "neg": fi == 5})
             }
             "incan::emit_slice" => 'g: {
                 // exhaustive: 2 targets x (slice: 4 start x 4 end x 4 step forms x compact/spaced  +  index: 4 forms) = 2 x (128 + 4) = 264,
-                // plus 4 element-assignment forms and 1 dict read = 269
+                // plus 4 element-assignment forms, 1 dict read, 1 nested index and 1 dict compound assignment = 271
                 let kinds = ["none", "var", "zero", "neg"];
                 let steps = ["none", "var", "neg", "two"];
-                let k0 = n % 269;
+                let k0 = n % 271;
+                if k0 == 269 { break 'g json!({"index_kind": "nested"}); }
+                if k0 == 270 { break 'g json!({"index_kind": "dict_compound"}); }
                 if k0 >= 264 {
                     let f = ["var", "zero", "neg", "two"][((k0 - 264) % 4) as usize];
                     break 'g (if k0 < 268 { json!({"index_kind": "assign", "start": f}) } else { json!({"index_kind": "dict"}) });
